@@ -231,7 +231,7 @@ func (e *c03Env) actClock(t *rapid.T) {
 func (e *c03Env) actConnectivity(t *rapid.T) {
 	var groups []uint8
 	for name, id := range e.comp.Name2Id {
-		if strings.HasPrefix(name, "g") {
+		if name != "direct" && name != "block" && id >= 2 {
 			groups = append(groups, id)
 		}
 	}
